@@ -431,25 +431,8 @@ pub fn spaces(tier: &str) -> Vec<Box<dyn Space>> {
     let mut v: Vec<Box<dyn Space>> = vec![];
     v.extend(super::c04::streams(tier).into_iter().map(|g| g.into_space(judge_calls)));
     v.extend(super::c05::streams(tier).into_iter().map(|g| g.into_space(judge_calls)));
-    // V5/V7: walking byte + all protocol numbers
-    for version in [5u16, 7] {
-        let base = crate::wire::fixed_distinct(version, 2, 33);
-        let b2 = base.clone();
-        v.push(space(
-            &format!("v{}-walking-byte", version),
-            ((base.len() - 2) * 256) as u64,
-            move |i| {
-                let mut b = base.clone();
-                b[2 + (i / 256) as usize] = (i % 256) as u8;
-                judge_calls(&[b])
-            },
-            move |i| {
-                let mut b = b2.clone();
-                b[2 + (i / 256) as usize] = (i % 256) as u8;
-                json!({"calls": [hex(&b)]})
-            },
-        ));
-    }
+    // V5/V7: C03's buffer spaces
+    v.extend(super::c03::buffers(tier).into_iter().filter(|g| thorough || !(g.name.contains("all-counts-over") || g.name.contains("every-prefix-of-1") || g.name.contains("materialised"))).map(|g| g.into_space(|b| judge_calls(&[b.to_vec()]))));
     // many cached templates: N distinct ids defined, then data for EVERY id; two parsers must serialise identically
     {
         let sizes: Vec<usize> = if thorough { vec![3, 64, 65, 257, 1024, 1025, 1500, 4097, 9000] } else { vec![3, 65, 257, 1025, 1500, 4097] };
